@@ -198,11 +198,17 @@ theorem cnt_step (cfg : Cfg) (s : State) (e : Step) (hc : Cnt s) : Cnt (step cfg
             simp only [invokeCount, captureCount, pendInst, setInst]
             omega
         · rename_i hst
-          apply cnt_build hc hi rfl
-          intro j
-          have := capTasks_setStage_invoked j j0 inst.tasks t hfind hst
-          simp only [invokeCount, captureCount, pendInst, filter_capture_cons, filter_invoke_cons, isCapture, isInvoke]
-          by_cases h : j0 = j <;> simp [h] at this ⊢ <;> omega
+          split
+          · apply cnt_build hc hi rfl
+            intro j
+            have := capTasks_setStage_invoked j j0 inst.tasks t hfind hst
+            simp only [invokeCount, captureCount, pendInst, setInst]
+            by_cases h : j0 = j <;> simp [h] at this ⊢ <;> omega
+          · apply cnt_build hc hi rfl
+            intro j
+            have := capTasks_setStage_invoked j j0 inst.tasks t hfind hst
+            simp only [invokeCount, captureCount, pendInst, filter_capture_cons, filter_invoke_cons, isCapture, isInvoke]
+            by_cases h : j0 = j <;> simp [h] at this ⊢ <;> omega
         · split
           · apply cnt_build hc hi rfl
             intro j
@@ -247,11 +253,16 @@ theorem cnt_step (cfg : Cfg) (s : State) (e : Step) (hc : Cnt s) : Cnt (step cfg
     · intro inst hi ha
       split
       · rename_i a q hp
-        apply cnt_build hc hi rfl
-        intro j
-        simp only [invokeCount, captureCount, pendInst, filter_capture_cons, filter_invoke_cons, isCapture, isInvoke, hp,
-          pendPoll, List.count_cons]
-        by_cases h : a = j <;> simp [h] <;> omega
+        split
+        · apply cnt_build hc hi rfl
+          intro j
+          simp only [invokeCount, captureCount, pendInst, setInst, hp, pendPoll, List.count_cons]
+          by_cases h : a = j <;> simp [h] <;> omega
+        · apply cnt_build hc hi rfl
+          intro j
+          simp only [invokeCount, captureCount, pendInst, filter_capture_cons, filter_invoke_cons, isCapture, isInvoke, hp,
+            pendPoll, List.count_cons]
+          by_cases h : a = j <;> simp [h] <;> omega
       · rename_i a q hp
         split
         · apply cnt_build hc hi rfl
